@@ -850,8 +850,9 @@ def history_case(rng, nops=None, scenario=None):
 def cases(rng, tier):
     B(); classes()
     n = 2400 if tier == 'thorough' else 400
-    out = [history_case(rng, nops=20, scenario=(bitstring_array_scenario, bitstring_array_ops))]
-    out += [history_case(rng) for _ in range(n - 1)]
+    out = [history_case(rng, nops=20, scenario=(bitstring_array_scenario, bitstring_array_ops)),
+           history_case(rng, nops=60, scenario=(rpm_index0_setup, rpm_index0_ops))]
+    out += [history_case(rng) for _ in range(n - 2)]
     bench().clear()
     return out
 
@@ -1210,6 +1211,246 @@ def bitstring_array_direct(failures, stats):
     bn.clear()
 
 
+# ---- commandable objects (local/object.py *CmdObject): priorities 1..16 against an independent priority-array oracle
+CMD_CLASSES = ['AnalogValueCmdObject', 'AnalogOutputCmdObject', 'BinaryValueCmdObject', 'MultiStateValueCmdObject',
+               'CharacterStringValueCmdObject', 'IntegerValueCmdObject', 'LargeAnalogValueCmdObject', 'PositiveIntegerValueCmdObject',
+               'OctetStringValueCmdObject', 'BitStringValueCmdObject', 'DateValueCmdObject', 'TimeValueCmdObject',
+               'LightingOutputCmdObject', 'MultiStateOutputCmdObject']
+_CMD = {}
+
+
+def cmd_classes():
+    if not _CMD:
+        O = B()['O']
+        from bacpypes.local import object as L
+        for name in CMD_CLASSES:
+            K = getattr(L, name)
+            O.register_object_type(K, vendor_id=997)
+            _CMD[name] = K
+    return _CMD
+
+
+def tags_of_any(a):
+    return [tuple(t) for t in valgen.canon_tags(a.tagList.tagList)]
+
+
+def run_cmd_history(hs, failures, stats, verbose=False):
+    """one commandable object; commands / relinquishes at priorities 1..16 (and none = 16) over the wire; after every
+    request presentValue, priorityArray (whole, [0], one slot) are read back and compared with the oracle:
+    slot[p] = last value commanded at p or Null; presentValue = first non-Null slot, else relinquishDefault"""
+    import random
+    e = B()
+    P, C, A = e['P'], e['C'], e['A']
+    hr = random.Random(hs)
+    bn = bench()
+    bn.clear()
+    name = hr.choice(CMD_CLASSES)
+    K = cmd_classes()[name]
+    pvprop = K._properties['presentValue']
+    dt = pvprop.datatype
+
+    def gen_value():
+        v = valgen.gen_atomic(dt, hr)
+        if issubclass(dt, P.Unsigned) and name.startswith('MultiState'):
+            v = hr.randint(1, 5)
+        return v
+
+    def enc(v):
+        return tags_of_any(make_any([dt(v)]))
+    rd = gen_value()
+    kw = {}
+    if name.startswith('MultiState'):
+        kw['numberOfStates'] = 5
+    obj = K(objectIdentifier=(K.objectType, 20), objectName='cmd-20', relinquishDefault=rd, presentValue=rd, **kw)
+    bn.add(obj)
+    oid = obj.objectIdentifier
+    NULL = [(0, 0, 0, '')]
+    slots = [None] * 17            # tags of the commanded value, per priority
+    rd_tags = enc(rd)
+    k = -1
+
+    def fail(kind, **kw2):
+        f = {'kind': kind, 'cmd_history_seed': hs, 'class': name, 'op_index': k}
+        f.update(kw2)
+        failures.append(f)
+
+    def read_tags(pid, idx=None):
+        req = A.ReadPropertyRequest(objectIdentifier=oid, propertyIdentifier=pid)
+        if idx is not None:
+            req.propertyArrayIndex = idx
+        io, _ = bn.exchange(req)
+        stats['evaluations'] += 1
+        r = io.ioResponse
+        if isinstance(r, A.ReadPropertyACK):
+            return tags_of_any(r.propertyValue)
+        return ('refused', c_reply(bn, io)[:3])
+
+    def verify(after):
+        want_pv = next((slots[p] for p in range(1, 17) if slots[p] is not None), rd_tags)
+        got = read_tags('presentValue')
+        if got != want_pv:
+            fail('commandable-present-value-wrong', after=after, got=str(got)[:120], want=str(want_pv)[:120],
+                 slots={p: str(slots[p]) for p in range(1, 17) if slots[p] is not None})
+            return False
+        whole = read_tags('priorityArray')
+        want = []
+        for p in range(1, 17):
+            want += slots[p] if slots[p] is not None else NULL
+        if whole != want:
+            fail('commandable-priority-array-wrong', after=after, got=str(whole)[:300], want=str(want)[:300])
+            return False
+        p = hr.randint(1, 16)
+        one = read_tags('priorityArray', p)
+        if one != (slots[p] if slots[p] is not None else NULL):
+            fail('commandable-priority-slot-wrong', after=after, slot=p, got=str(one)[:120])
+            return False
+        if read_tags('priorityArray', 0) != [(0, 2, 1, '10')]:
+            fail('commandable-priority-array-length-wrong', after=after)
+            return False
+        r17 = read_tags('priorityArray', 17)
+        if r17 != ('refused', [2, 2, 42]):
+            fail('bad-index-wrong-reply', after=after, got=str(r17))
+            return False
+        if read_tags('relinquishDefault') != rd_tags:
+            fail('commandable-relinquish-default-changed', after=after)
+            return False
+        return True
+    if not verify('construction'):
+        bn.clear()
+        return
+    for k in range(hr.randint(10, 16)):
+        r = hr.random()
+        prio = hr.choice([None, 1, 2, 5, 8, 8, 12, 15, 16, hr.randint(1, 16)])
+        p = 16 if prio is None else prio
+        if r < 0.55:
+            v = gen_value()
+            a, what, newslot = make_any([dt(v)]), 'command', enc(v)
+        elif r < 0.85:
+            a, what, newslot = make_any([P.Null()]), 'relinquish', None
+        else:
+            kinds = [i for i in range(1, 13) if i != dt._app_tag and not (dt._app_tag in (2, 9) and i in (2, 9) and False)]
+            a, what, newslot = make_any([atom_samples()[hr.choice(kinds)](hr)]), 'wrong-type', 'refuse'
+        req = A.WritePropertyRequest(objectIdentifier=oid, propertyIdentifier='presentValue')
+        req.propertyValue = a
+        if prio is not None:
+            req.priority = prio
+        before = snap(bn)
+        io, _ = bn.exchange(req)
+        rep = c_reply(bn, io)
+        stats['evaluations'] += 1
+        stats['cmd_requests'] = stats.get('cmd_requests', 0) + 1
+        d = {'what': what, 'priority': prio, 'tags': str(tags_of_any(a)), 'reply': rep[:3]}
+        if verbose:
+            print(k, d)
+        if rep == [0]:
+            if newslot == 'refuse':
+                fail('wrong-datatype-accepted', op=d)
+                break
+            slots[p] = newslot
+            stats['acked'] += 1
+        else:
+            if rep[0] not in (2, 3, 4):
+                fail('no-or-unknown-reply', op=d)
+                break
+            if snap(bn) != before:
+                fail('refused-write-changed-state', op=d)
+                break
+        if not verify(d):
+            break
+    bn.clear()
+
+
+def rpm_index0_scenario(bn):
+    """objects with arrays whose elements are character strings, enumerations (propertyList), unsigned; -> the specs"""
+    e = B()
+    P, C, A = e['P'], e['C'], e['A']
+    bn.clear()
+    cls, M = classes()['multiStateValue']
+    st = M._properties['stateText'].datatype
+    av = M._properties['alarmValues'].datatype
+    o1 = M(objectIdentifier=('multiStateValue', 10), objectName='msv-10', stateText=st(['off', 'low', 'high']),
+           alarmValues=av([2, 3]), presentValue=1, numberOfStates=3)
+    cls2, M2 = classes()['structuredView']
+    sub = M2._properties['subordinateList'].datatype
+    ann = M2._properties['subordinateAnnotations'].datatype
+    o2 = M2(objectIdentifier=('structuredView', 11), objectName='sv-11',
+            subordinateAnnotations=ann(['a', 'bb']))
+    cls3, M3 = classes()['notificationClass']
+    pr = M3._properties['priority'].datatype
+    pl = M3._properties['propertyList'].datatype
+    o3 = M3(objectIdentifier=('notificationClass', 12), objectName='nc-12', priority=pr([1, 2, 3]),
+            propertyList=pl(['presentValue', 'units', 'priority']))
+    for o in (o1, o2, o3):
+        bn.add(o)
+    specs = [(o1.objectIdentifier, [('stateText', 0), ('stateText', 2), ('alarmValues', 0), ('stateText', None), ('stateText', 4)]),
+             (o2.objectIdentifier, [('subordinateAnnotations', 0), ('subordinateAnnotations', 1)]),
+             (o3.objectIdentifier, [('priority', 0), ('priority', 3), ('all', 0)]),
+             (o3.objectIdentifier, [('propertyList', 0), ('propertyList', 2), ('propertyList', None)]),
+             (o1.objectIdentifier, [('alarmValues', 0), ('alarmValues', 1)]),
+             (('device', 4194303), [('objectName', None)])]
+    return specs
+
+
+def rpm_index0_ops(bn):
+    A = B()['A']
+    for oid, refs in bn._scenario_specs:
+        specs = [(oid, refs)]
+        req = A.ReadPropertyMultipleRequest(listOfReadAccessSpecs=[
+            A.ReadAccessSpecification(objectIdentifier=o, listOfPropertyReferences=[
+                A.PropertyReference(propertyIdentifier=p, propertyArrayIndex=i) for p, i in rr]) for o, rr in specs])
+        yield req, '(ORpm %s)' % q_refs(specs), {'op': 'rpm', 'specs': [[list(o), [list(x) for x in rr]] for o, rr in specs]}
+        for pid, idx in refs:
+            if pid in ('all', 'required', 'optional'):
+                continue
+            req = A.ReadPropertyRequest(objectIdentifier=oid, propertyIdentifier=pid)
+            if idx is not None:
+                req.propertyArrayIndex = idx
+            yield req, '(ORead %d %d %s)' % (oid_num(oid), pid_num(pid), q_opt(idx)), {'op': 'read', 'oid': list(oid), 'pid': pid, 'idx': idx}
+
+
+def rpm_index0_setup(bn):
+    bn._scenario_specs = rpm_index0_scenario(bn)
+
+
+def rpm_index0_direct(failures, stats):
+    """index 0 (and the other index classes) of arrays whose elements are not Unsigned, through ReadPropertyMultiple and
+    ReadProperty"""
+    bn = bench()
+    specs = rpm_index0_scenario(bn)
+    for group in [specs] + [[x] for x in specs]:
+        rpm_index0_one(bn, group, failures, stats)
+    bn.clear()
+
+
+def rpm_index0_one(bn, specs, failures, stats):
+    e = B()
+    P, C, A = e['P'], e['C'], e['A']
+    req = A.ReadPropertyMultipleRequest(listOfReadAccessSpecs=[
+        A.ReadAccessSpecification(objectIdentifier=o, listOfPropertyReferences=[
+            A.PropertyReference(propertyIdentifier=p, propertyArrayIndex=i) for p, i in refs]) for o, refs in specs])
+    d = {'op': 'rpm', 'specs': [[list(o), [list(x) for x in refs]] for o, refs in specs]}
+    io, _ = bn.exchange(req)
+    rep = c_reply(bn, io)
+    stats['evaluations'] += 1
+    d['reply'] = rep[:60]
+
+    def fail(kind, d=d, **kw):
+        failures.append(dict({'kind': kind, 'scenario': 'rpm-index-0', 'op': d}, **kw))
+    check_rpm(bn, d, rep, fail)
+    # and the raw tags: index 0 must be one application Unsigned tag carrying the length
+    r = io.ioResponse
+    if isinstance(r, A.ReadPropertyMultipleACK):
+        for rar in r.listOfReadAccessResults:
+            for el in rar.listOfResults:
+                if el.propertyArrayIndex == 0 and el.readResult.propertyValue is not None:
+                    tags = valgen.canon_tags(el.readResult.propertyValue.tagList.tagList)
+                    obj = bn.find(rar.objectIdentifier)
+                    v = obj._values.get(el.propertyIdentifier) if obj is not None else None
+                    if isinstance(v, C.Array) and (len(tags) != 1 or tags[0][0] != 0 or tags[0][1] != 2
+                                                   or int(tags[0][3], 16) != len(v.value) - 1):
+                        fail('rpm-index-0-not-the-length', prop=el.propertyIdentifier, tags=str(tags))
+
+
 def direct(rng, tier, focus=()):
     import collections
     B(); classes()
@@ -1222,6 +1463,11 @@ def direct(rng, tier, focus=()):
         stats['histories'] += 1
     canonical_known(failures, stats)
     bitstring_array_direct(failures, stats)
+    rpm_index0_direct(failures, stats)
+    cseeds = [rng.getrandbits(48) for _ in range(600 if tier == 'thorough' else 120)]
+    for hs in cseeds:
+        run_cmd_history(hs, failures, stats)
+        stats['cmd_histories'] = stats.get('cmd_histories', 0) + 1
     stats['replies'] = dict(stats['replies'])
     stats['distinct_nontrivial'] = stats['acked']
     stats['samples'] = [{'direct': 'history', 'seed': seeds[0]}]
@@ -1237,6 +1483,13 @@ def classify(failure):
 def replay(payload):
     B(); classes()
     f = payload.get('failure')
+    if f and 'cmd_history_seed' in f:
+        failures, stats = [], {'evaluations': 0, 'acked': 0, 'replies': __import__('collections').Counter(), 'histories': 0}
+        run_cmd_history(f['cmd_history_seed'], failures, stats, verbose=True)
+        print('failures re-observed:')
+        for x in failures:
+            print(' ', x)
+        return
     if f and 'history_seed' in f:
         failures, stats = [], {'evaluations': 0, 'acked': 0, 'replies': __import__('collections').Counter(), 'histories': 0}
         run_direct_history(f['history_seed'], failures, stats, verbose=True)
